@@ -92,7 +92,7 @@ RE_STRUCT = re.compile(r'^(?:template\s*<[^{};]*>\s*)?(?:struct|class|union)\s+(
                        r'(\w+)\s*(?:final\s*)?(?::\s*[^{};()]*)?$')
 RE_MSG_TYPE = re.compile(r'\bMESSAGE_TYPE\s*=')
 RE_MSG_VERSION = re.compile(r'\bMESSAGE_VERSION\s*=')
-RE_STATIC_CONST = re.compile(r'^static\s+const(?:expr)?\s+(?:u?int\d+_t|unsigned|int|size_t)\s+(\w+)\s*=', re.S)
+RE_STATIC_CONST = re.compile(r'^static\s+const(?:expr)?\s+(?:[A-Za-z_][\w:]*)(?:\s+(?:int|long|char|short))?\s+(\w+)\s*=', re.S)
 RE_ENUMERATOR = re.compile(r'^([A-Za-z_]\w*)\s*(?:=\s*(\S.*))?$', re.S)
 
 
